@@ -106,7 +106,7 @@ def _absorb(res, name, text):
         r["time"] = float(m.group(1))
     if "CBMC failed" in text or "out of memory" in text.lower() or "unwinding assertion" in text.lower() and False:
         r["status"] = "UNDECIDED"
-        r["reason"] = "cbmc failure"
+        r["reason"] = "cbmc timed out (harness time box)" if "CBMC timed out" in text else "cbmc failure"
     r["raw"] = text[-3000:]
 
 
@@ -120,8 +120,12 @@ UNDECIDED_FAIL_PATTERNS = (
 def run(repo, package, harnesses, jobs=8, timeout=3600, playback=False, verif_dir=VERIF, extra=None):
     if not harnesses:
         return {}, dict(cmd="", wall=0.0, stubs=[], compile_error=None)
-    cmd = ["cargo", "kani", "-p", package, "-Z", "function-contracts", "-Z", "stubbing",
-           "--output-format", "terse"]
+    # the time box applies to each harness's solver run (--harness-timeout), not to the build: after a change to a
+    # low-level crate the Kani rebuild of the dependent crates alone can take many minutes
+    cmd = ["cargo", "kani", "-p", package, "-Z", "function-contracts", "-Z", "stubbing", "-Z", "unstable-options",
+           "--output-format", "terse", "--harness-timeout", "%ds" % int(timeout)]
+    n_jobs = 1 if playback else max(1, min(jobs, len(harnesses)))
+    outer_timeout = 3600 + int(timeout) * ((len(harnesses) + n_jobs - 1) // n_jobs)
     if playback:
         cmd += ["-Z", "concrete-playback", "--concrete-playback=print"]
     elif jobs > 1 and len(harnesses) > 1:
@@ -132,7 +136,7 @@ def run(repo, package, harnesses, jobs=8, timeout=3600, playback=False, verif_di
     cmd += extra or []
     t0 = time.time()
     try:
-        p = subprocess.run(cmd, cwd=repo, env=_env(verif_dir, repo), capture_output=True, text=True, timeout=timeout)
+        p = subprocess.run(cmd, cwd=repo, env=_env(verif_dir, repo), capture_output=True, text=True, timeout=outer_timeout)
         out = p.stdout + "\n" + p.stderr
         timed_out = False
     except subprocess.TimeoutExpired as e:
